@@ -6,23 +6,34 @@ step, written either by the real `atlas migrate diff` (renamed to controlled ver
 `atlas migrate hash`) or by hand (own DDL renderer): additive steps, DROP TABLE, ALTER TABLE .. DROP COLUMN,
 the 12-step table rebuild that omits columns (as atlas plans it and hand-written, plus non-canonical
 hand-written variants), drops of VIRTUAL generated columns, temporary tables / columns created and dropped
-inside one file, table replacement (CREATE new_t .. DROP t), first files with more than 10 statements.
+inside one file, table replacement (CREATE new_t .. DROP t), first files with more than 10 statements,
+long files (> 10 statements) with the drops late in the file, and -- forced into every run by cycling over the
+evolution number (c18_lib.FOCUS) -- a column dropped and re-added under the same name in one file (ALTER and
+rebuild form), a table dropped and re-created in one file, one rebuild dropping a VIRTUAL generated column
+together with regular columns declared after / before it (atlas plan and hand SQL), and a schema-changing
+statement sitting between the CREATE new_t and the DROP t of a rebuild.
 
 Observation: `atlas migrate lint --dir file://migrations --dev-url sqlite://dev.db --latest N
 --format '{{ json . }}'` for every window N: exit status and Files[].Reports[].Diagnostics[].{Code,Pos,Text}.
 
-Oracle (independent of Atlas): the files are replayed with python's sqlite3; PRAGMA facts before / after each
-file give the tables and (table, non-virtual column) pairs that disappear in that file (cross-checked with
-the model the files were generated from). Each of them must be covered by exactly one DS102 / DS103
-diagnostic whose Pos lies inside the causing statement (rebuild: inside its CREATE..RENAME group); nothing
-else may carry a DS1xx diagnostic; the exit status must be non-zero iff a DS1xx diagnostic was reported.
+Oracle (independent of Atlas): the files are replayed statement by statement with python's sqlite3; PRAGMA
+facts after every statement follow the tables and non-virtual columns that existed BEFORE the file: one that
+disappears is dropped by that statement (a table keeps its identity through a rebuild group CREATE tmp .. DROP t
+.. RENAME tmp TO t; columns missing at the RENAME are dropped by the group); objects the file creates itself --
+also under the name of something it dropped earlier -- are never "pre-existing" (state after each file is
+cross-checked with the model the files were generated from). Each dropped object must be covered by exactly one
+DS102 / DS103 diagnostic whose Pos lies inside the causing statement / group; nothing else may carry a DS1xx
+diagnostic; the exit status must be non-zero iff a DS1xx diagnostic was reported.
 For hand-written rebuilds that deviate from the canonical CREATE new_t / INSERT / DROP t / RENAME sequence
-(other temporary name, no INSERT, an extra statement) any single DS102/DS103 inside the group is accepted,
+(other temporary name, no INSERT, an extra or a foreign statement inside) any single DS102/DS103 inside the group is accepted,
 which is all the property statement asks for.
 
 Violation keys are class level: missing|<code>|<how>|<file class>|<writer>, spurious|<code>|..., pos|...,
-duplicate|..., exit|.... Four keys carry a circumstance instead of the file class; they single out the one
-root cause documented in notes/C18-findings.md (an unrelated table named new_<t> in the same file):
+duplicate|..., exit|.... Six keys carry a circumstance instead of the file class; they single out the two
+root causes documented in notes/C18-findings.md (finding 2: the statement in the INSERT slot of a rebuild is
+discarded; finding 1, fixed: an unrelated table named new_<t> in the same file):
+  missing|DS102|statement-between-CREATE-new_<t>-and-DROP-<t>-of-a-rebuild
+  missing|DS103|statement-between-CREATE-new_<t>-and-DROP-<t>-of-a-rebuild
   missing|DS102|file-creates-new_<t>-and-drops-<t>
   missing|DS103|file-creates-new_<t>-with-column-<c>-and-drops-<t>.<c>
   spurious|DS102|temporary-table-named-new_*
@@ -36,8 +47,9 @@ sys.path.insert(0, os.path.dirname(os.path.abspath(__file__)))
 import vlib  # noqa: E402
 import c18_lib as L  # noqa: E402
 
-RULE = ("per file in the --latest N window: {tables, (table, non-virtual column)} present before and absent after the file "
-        "(python sqlite3 PRAGMA facts == model) <=> exactly one DS102 / DS103 diagnostic each, Pos inside the causing "
+RULE = ("per file in the --latest N window: {tables, (table, non-virtual column)} that existed before the file and disappear at some "
+        "statement of it, re-created or not (python sqlite3 PRAGMA facts per statement; state after the file == model) "
+        "<=> exactly one DS102 / DS103 diagnostic each, Pos inside the causing "
         "statement or rebuild group; no other DS1xx diagnostic (additive / temporary / virtual-only files: none); "
         "exit status != 0 <=> some DS1xx diagnostic reported")
 
